@@ -1,7 +1,7 @@
 """C16 (partial): R-IDX, R-CAP, R-EOF, R-REC, R-DIV, R-WRAP, T-TBL, R-NULL over everything reachable from naken_asm."""
 from nk import report
 from nk.interval import Analyzer
-from rules import idx, term, div, lane, tbl, null, expr
+from rules import wrap, idx, term, div, lane, tbl, null, expr
 from . import common
 
 EXPLANATION = (
@@ -27,7 +27,8 @@ def run(tier, t0):
     dctx = div.Ctx(prog, an)
     results = [idx.idx(prog, scope, 150, an), idx.cap_callers(prog, scope, 380, cg), idx.cap_callee(prog),
                term.eof(prog, scope, 50), term.rec(prog, cg, [common.ASM_MAIN]), div.div(prog, scope, 60, ctx=dctx),
-               lane.wrap_pages(prog, 2), tbl.ttbl(prog), null.null_a(prog, scope, 20), term.pool_fit(prog, cg), expr.cap_protocol(prog), idx.ptr_into_array(prog, scope, an)]
+               lane.wrap_pages(prog, 2), tbl.ttbl(prog), null.null_a(prog, scope, 20), term.pool_fit(prog, cg), expr.cap_protocol(prog), idx.ptr_into_array(prog, scope, an),
+               wrap.wrap_loops(prog, lambda f: f.file.startswith(('fileio/write', 'main/naken_asm', 'core/')), an, 8)]
     return report.finish('C16', tier, results, EXPLANATION,
                          ['the invariants listed for not-decided subscripts were read from the code and replayed under ASan '
                           'during triage; they are not re-proved by the check'], common.TRUSTED, t0)
